@@ -137,6 +137,7 @@ type world struct {
 	attached         bool // the content of index.d2 on disk (after the save in progress) imports b.d2
 	navBoard         int  // board the browser tab navigated to last (0 = root)
 	navUncertain     atomic.Bool
+	skipC44          bool
 	navsDone         atomic.Bool
 	wantCheckpoint   atomic.Bool
 	stored           []uint64 // hash of every result the compile loop stored, in order
@@ -1472,11 +1473,29 @@ func (w *world) settle() {
 	w.settling.Store(true)
 	w.kernel.NoFaults = true
 	sim.ClassWeight["nav"] = 0 // no new navigation; a GET in flight completes
-	// let a half-finished save complete (and, at the end of the run, the remaining saves)
+	// let a half-finished save complete (and, at the end of the run, the remaining saves);
+	// a gate that was holding the editor back is open now
+	if !w.midRun || w.saveInProgress.Load() != 0 {
+		if bw := w.baseWeight["editor"]; bw > 0 {
+			sim.ClassWeight["editor"] = bw
+		} else {
+			sim.ClassWeight["editor"] = 1
+		}
+	}
 	for i := 0; i < 400 && !w.editsDone.Load() && (w.saveInProgress.Load() != 0 || !w.midRun); i++ {
 		if !sim.Step(false, nil) {
 			sim.Advance(100 * time.Millisecond)
 		}
+	}
+	// never compare against a version that is not on disk yet
+	for i := 0; i < 200 && w.saveInProgress.Load() != 0; i++ {
+		if !sim.Step(false, func(k string) bool { return strings.HasPrefix(k, "editor:") }) {
+			sim.Advance(100 * time.Millisecond)
+		}
+	}
+	w.skipC44 = w.saveInProgress.Load() != 0
+	if w.skipC44 {
+		w.probe("settle_with_a_save_still_in_progress_conditions_not_checked")
 	}
 	sim.Logf("settle: input stable at %v, faults off", w.want())
 	deadline := sim.Now() + 60*time.Second
@@ -1503,6 +1522,9 @@ func (w *world) same(got, want vers) bool {
 
 func (w *world) checkC44() {
 	res := w.res
+	if w.skipC44 {
+		return
+	}
 	want := w.want()
 	evs := w.sim.Events()
 	// O44.2a: the last compile used the latest content (and the board navigated to last)
